@@ -305,3 +305,30 @@ func DefaultVal(t *Ty) *Val {
 	}
 	panic("bad type")
 }
+
+// wideContainers: containers with more fields than a machine word has bits (33, 40, 65, 70),
+// variable-size fields before, at and after positions 31/32 and 63/64.
+func wideContainers() []*Ty {
+	u8 := &Ty{Kind: KUint, N: 1}
+	u16 := &Ty{Kind: KUint, N: 2}
+	lst := &Ty{Kind: KList, N: 4, Elem: u8}
+	bl := &Ty{Kind: KBitlist, N: 5}
+	var out []*Ty
+	for _, n := range []int{33, 40, 65, 70} {
+		fs := make([]*Ty, n)
+		for i := range fs {
+			switch {
+			case i == 3 || i == 31 || i == 32 || i == 34 || i == 63 || i == 64 || i == n-1:
+				fs[i] = lst
+			case i == 36 || i == 66:
+				fs[i] = bl
+			case i%5 == 0:
+				fs[i] = u16
+			default:
+				fs[i] = u8
+			}
+		}
+		out = append(out, &Ty{Kind: KContainer, Fields: fs})
+	}
+	return out
+}
